@@ -578,6 +578,14 @@ def _check_type_name_for_reserved_words(type_definition, source_file_name, error
     )
 
 
+def _check_parameter_name_for_reserved_words(
+    runtime_parameter, source_file_name, errors
+):
+    return _check_name_for_reserved_words(
+        runtime_parameter, source_file_name, errors, "a parameter name"
+    )
+
+
 def _bounds_can_fit_64_bit_unsigned(minimum, maximum):
     return minimum >= 0 and maximum <= 2**64 - 1
 
@@ -796,6 +804,12 @@ def check_constraints(ir):
         ir,
         [ir_data.TypeDefinition],
         _check_type_name_for_reserved_words,
+        parameters={"errors": errors},
+    )
+    traverse_ir.fast_traverse_ir_top_down(
+        ir,
+        [ir_data.RuntimeParameter],
+        _check_parameter_name_for_reserved_words,
         parameters={"errors": errors},
     )
     traverse_ir.fast_traverse_ir_top_down(
